@@ -8,7 +8,12 @@ RULE = ("documents x stacks of 0..3 order-sensitive probe middlewares (library p
         "parse_file / write_file (none, full stack, addition, both -> ValueError), as lists, tuples, generators and iterators; files in utf-8, latin-1, gbk, "
         "utf-16 with CRLF content, matching and mismatching read encodings, path / StringIO / real file-object targets; block probes "
         "answering None, [], (), one block, lists/tuples/deques of k blocks, generators, iterators, strings, bytes, ranges, dicts, "
-        "sets, ints, objects, collections with a non-block, per block class; Library(blocks) with duplicate keys. "
+        "sets, ints, objects, collections with a non-block, per block class; Library(blocks) with duplicate keys; STATEFUL recording block "
+        "probes (oracle only) whose answer lives in an object they keep - a scratch list/deque/user Collection/list subclass cleared and "
+        "refilled per block, a growing list, one constant container, the library's own block list - and/or change after returning it "
+        "(append a block / a non-block, clear, reverse, pop), one probe object 1..3 times in a stack and used for two successive calls, "
+        "through transform / parse_string / write_string: every block must be replaced, at its position, by what was answered for it as "
+        "it was when answered. "
         "distinct = distinct case description; non-trivial = a non-empty stack or a non-trivial splice")
 TRUSTED = ["oracle instances supplied by the harness on every case: the graph of Splitter(text).split(), of every shipped middleware "
            "instance on the libraries it is applied to in the manual composition, of the codec (bytes.decode + universal newlines) "
@@ -210,7 +215,69 @@ def generate(rng, tier):
         keys, skeys = ["k"], ["s"]
         blocks = [c06.rblock(rng, keys, skeys) for _ in range(rng.choice([0, 1, 2, 4, 7]))]
         cases.append({"stream": "library", "input": dict(op="library", blocks=blocks)})
+    # STATEFUL block probes: the collection handed back for one block is an object the probe keeps (a scratch buffer that is
+    # cleared and refilled, a list that grows, one constant container, the library's own block list) and/or changes after
+    # it was returned; ONE probe object used r times in a stack and for two successive entry-point calls
+    plan0 = [["coll", [["new", NEW_BLOCKS[2]], "self"]], ["coll", ["self"]], ["coll", []], "self",
+             ["coll", ["self", ["new", NEW_BLOCKS[1]]]], "none"]
+    fixed_blocks = [["expl", "first"], ["entry", "article", "k1", [["a", "{1}"]], "@article{k1}"], ["string", "me", "{v}", "@string{me}"],
+                    ["preamble", "pp"], ["impl", "free"], ["failed", "broken"], ["entry", "book", "k2", [], None], ["expl", "last"]]
+    i = 0
+    for mode in ST_MODES:
+        for late in ([None] if mode == "libview" else ST_LATE):
+            for via in ("transform", "parse", "write"):
+                for cont in (ST_CONT if late is None else [ST_CONT[i % len(ST_CONT)]]):
+                    i += 1
+                    probe = dict(k=5, inplace=i % 3 != 0, mode=mode, cont=cont, late=late, plan=plan0)
+                    inp = dict(op="stateful", via=via, probe=probe, repeat=1 + (i % 5 == 0 and mode in ST_REPEATABLE), calls=1 + (i % 2),
+                               pos=("ps", "am")[i % 4 == 0], prefix=[], alias=False)
+                    if via == "transform":
+                        inp["blocks"] = fixed_blocks
+                    else:
+                        inp["text"] = DOCS[3] + DOCS[9]
+                    cases.append({"stream": "stateful", "input": inp})
+    for _ in range(260 * n):
+        mode = rng.choice(ST_MODES + ["buffer", "fresh"])
+        bad = rng.random() < 0.15
+        probe = dict(k=rng.randint(1, 9), inplace=rng.random() < 0.7, mode=mode,
+                     cont=rng.choice(ST_CONT + (["tuple"] if mode in ("fresh", "const") else [])),
+                     late=None if mode == "libview" else rng.choice(ST_LATE), plan=rplan(rng, bad))
+        via = rng.choice(["transform", "parse", "write"])
+        inp = dict(op="stateful", via=via, probe=probe, repeat=rng.choice([1, 1, 1, 2, 3]) if mode in ST_REPEATABLE else 1, calls=rng.choice([1, 1, 2]),
+                   pos=rng.choice(["ps", "am"]), alias=rng.random() < 0.2,
+                   prefix=rng.choice([[], [], [["lib", 1, True]], [["lib", 2, False]], [["shipped"] + SHIPPED[7]],
+                                      [["blk", 3, True, {c: ["self"] for c in CLASSES}]]]))
+        if via == "transform":
+            keys, skeys = [], []
+            inp["blocks"] = [c06.rblock(rng, keys, skeys) for _ in range(rng.choice([0, 1, 2, 3, 5, 8]))]
+        else:
+            inp["text"] = rdoc(rng)[0]
+        cases.append({"stream": "stateful", "input": inp})
     return cases
+
+
+ST_MODES = ["fresh", "buffer", "grow", "const", "libview"]
+ST_REPEATABLE = ("fresh", "buffer")      # a pass at most triples the library: the same object may be several times in a stack
+ST_LATE = [None, "append_non", "append_block", "clear", "reverse", "pop"]
+ST_CONT = ["list", "deque", "bag", "sublist"]
+
+
+def rplan(rng, bad):
+    """What a stateful probe answers on its 1st, 2nd, ... call (cycled): None, the block, or a collection of items."""
+    steps = []
+    for _ in range(rng.choice([1, 2, 2, 3, 4])):
+        r = rng.random()
+        if r < 0.1:
+            steps.append("none")
+        elif r < 0.25:
+            steps.append("self")
+        else:
+            items = []
+            for _ in range(rng.choice([0, 1, 1, 2, 2, 3])):
+                q = rng.random()
+                items.append("self" if q < 0.5 else ("non" if bad and q > 0.85 else ["new", rng.choice(NEW_BLOCKS)]))
+            steps.append(["coll", items])
+    return steps
 
 
 def shrink(case):
@@ -245,6 +312,7 @@ def probes():
     if _PROBES:
         return _PROBES
     import collections
+    import collections.abc
     from bibtexparser.library import Library
     from bibtexparser.middlewares import BlockMiddleware, LibraryMiddleware
     from bibtexparser.model import Field
@@ -352,7 +420,130 @@ def probes():
         def transform_implicit_comment(self, implicit_comment, library):
             return self._do("impl", implicit_comment)
 
-    _PROBES.update(tag=tag, LibTag=LibTag, BlkProbe=BlkProbe)
+    import copy
+    from bibtexparser import model as M
+
+    class Bag(collections.abc.Collection):
+        """A user-defined mutable Collection (not a Sequence)."""
+
+        def __init__(self, items=()):
+            self.items = list(items)
+
+        def __len__(self):
+            return len(self.items)
+
+        def __iter__(self):
+            return iter(list(self.items))
+
+        def __contains__(self, x):
+            return any(x is y for y in self.items)
+
+        def append(self, x):
+            self.items.append(x)
+
+        def extend(self, xs):
+            self.items.extend(xs)
+
+        def clear(self):
+            del self.items[:]
+
+        def reverse(self):
+            self.items.reverse()
+
+        def pop(self):
+            return self.items.pop()
+
+    class SubList(list):
+        pass
+
+    class StatefulProbe(BlockMiddleware):
+        """Overrides transform_block (so it sees every block class) and RECORDS, for every call, the block it was handed and the
+        content of its answer at the moment it answered.  The answer may live in an object the probe keeps and changes later."""
+
+        def __init__(self, d):
+            super().__init__(allow_inplace_modification=d["inplace"])
+            self.d = d
+            self.calls = 0
+            self.buf = None
+            self.handed = []
+            self.passes = []
+            self.new_pass = True
+            self.retired = False
+            self.volume = 0
+
+        def mark(self):
+            self.new_pass = True
+
+        def _new(self, items):
+            c = self.d["cont"]
+            return {"list": list, "deque": collections.deque, "bag": Bag, "sublist": SubList, "tuple": tuple}[c](items)
+
+        def scribble(self):
+            op = self.d["late"]
+            if op is None:
+                return
+            for c in self.handed:
+                if isinstance(c, tuple):
+                    continue
+                if op == "append_non":
+                    c.append("not a block")
+                elif op == "append_block":
+                    c.append(M.ImplicitComment("% added to a result after it was returned"))
+                elif op == "clear":
+                    c.clear()
+                elif op == "reverse":
+                    c.reverse()
+                elif op == "pop" and len(c):
+                    c.pop()
+
+        def transform_block(self, block, library):
+            if self.retired or self.calls > 5000 or self.volume > 50000:
+                # its case is over (a library that still calls it has kept it somewhere: the plain probes of the other streams
+                # report that) or the stack is running away: pass the block through so that the run stays bounded
+                return block
+            if self.new_pass or self.passes[-1]["lib"] is not library:
+                self.passes.append({"lib": library, "inputs": list(library.blocks), "calls": []})
+                self.new_pass = False
+            arg = block
+            if not self.allow_inplace_modification:
+                block = copy.deepcopy(block)
+            tag(block, self.d["k"])
+            self.scribble()
+            i = self.calls
+            self.calls += 1
+            step = self.d["plan"][i % len(self.d["plan"])]
+            if step == "none":
+                res, snap = None, []
+            elif step == "self":
+                res, snap = block, [block]
+            else:
+                mode = self.d["mode"]
+                if mode == "libview":
+                    res = library.blocks
+                else:
+                    items = [block if it == "self" else ([object(), None, "text", 0][(i + j) % 4] if it == "non" else c06.build_block(it[1]))
+                             for j, it in enumerate(step[1])]
+                    if mode == "fresh":
+                        res = self._new(items)
+                    elif mode == "const":
+                        if self.buf is None:
+                            self.buf = self._new(items)
+                        res = self.buf
+                    else:
+                        if self.buf is None:
+                            self.buf = self._new([])
+                        if mode == "buffer":
+                            self.buf.clear()
+                        self.buf.extend(items)
+                        res = self.buf
+                    if not any(res is h for h in self.handed):
+                        self.handed.append(res)
+                snap = list(res)
+            self.passes[-1]["calls"].append((arg, snap))
+            self.volume += len(snap)
+            return res
+
+    _PROBES.update(tag=tag, LibTag=LibTag, BlkProbe=BlkProbe, StatefulProbe=StatefulProbe)
     return _PROBES
 
 
@@ -507,6 +698,8 @@ def impl(case):
     rec = {"key": json.dumps(inp, sort_keys=True), "tags": [op]}
     if op in ("transform", "library"):
         return impl_transform(inp, rec)
+    if op == "stateful":
+        return impl_stateful(inp, rec)
     import bibtexparser
     from bibtexparser.splitter import Splitter
     from bibtexparser import writer as W
@@ -741,6 +934,148 @@ def impl_transform(inp, rec):
     if mwd[0] == "blk":
         kinds = sorted({(s[0] + "_" + s[1]) if s[0] in ("coll", "other") else s[0] for s in mwd[3].values()})
         rec["tags"] += kinds
+    if got[0] == "exc":
+        rec["tags"].append("raises_" + got[2])
+    return rec
+
+
+# ------------------------------------------------------------------ stateful block probes (oracle only)
+def same_blocks(out, exp):
+    """out is exp, object by object (Library() may wrap a duplicate-key Entry/String: the wrapper must then hold that object)."""
+    return len(out) == len(exp) and all(
+        o is e or (type(o).__name__ == "DuplicateBlockKeyBlock" and type(e).__name__ != "DuplicateBlockKeyBlock" and o.ignore_error_block is e)
+        for o, e in zip(out, exp))
+
+
+def names(bs):
+    return repr([type(b).__name__ + ":" + str(getattr(b, "key", "") or "") for b in bs])[:300]
+
+
+def splice_recorded(p):
+    """What the property prescribes for one pass of a recording probe over a library: each block of the library, at its position,
+    replaced by what the probe answered FOR THAT BLOCK, as the answer was when it was given."""
+    pool = list(p["calls"])
+    out = []
+    for n, b in enumerate(p["inputs"]):
+        for i, (a, snap) in enumerate(pool):
+            if a is b:
+                out.extend(snap)
+                del pool[i]
+                break
+        else:
+            return None, "block %d of the library was never handed to transform_block" % n
+    if pool:
+        return None, "transform_block was called %d time(s) more than the library has blocks" % len(pool)
+    return out, ""
+
+
+def expect_stateful(probe, p0, repeat):
+    """-> ("typeerror", None) when a TypeError is the prescribed outcome, ("fail", why) when the recorded calls already contradict the
+    per-block protocol, else ("blocks", the blocks the last pass of the probe must have put into the library it returned)."""
+    from bibtexparser import model as M
+    passes = probe.passes[p0:]
+    if any(not isinstance(x, M.Block) for p in passes for _, snap in p["calls"] for x in snap):
+        return "typeerror", None
+    if len(passes) > repeat:
+        return "fail", "the probe object is %d time(s) in the stack but ran %d passes" % (repeat, len(passes))
+    final = []
+    for j, p in enumerate(passes):
+        exp, why = splice_recorded(p)
+        if exp is None:
+            return "fail", "pass %d: %s" % (j + 1, why)
+        if j + 1 < len(passes) and not same_blocks(passes[j + 1]["inputs"], exp):
+            return "fail", ("pass %d of the same probe object did not receive the blocks its pass %d returned: expected %s, received %s"
+                            % (j + 2, j + 1, names(exp), names(passes[j + 1]["inputs"])))
+        final = exp
+    if len(passes) < repeat and final:
+        return "fail", "the probe object is %d time(s) in the stack but ran only %d pass(es) although blocks were left" % (repeat, len(passes))
+    return "blocks", final
+
+
+_LIVE_STATEFUL = []
+
+
+def impl_stateful(inp, rec):
+    import implutil
+    import bibtexparser
+    import bibtexparser.middlewares as MW
+    from bibtexparser.library import Library
+    from bibtexparser import writer as W
+    import props.c06 as c06
+    P = probes()
+    pd, via, repeat, pos = inp["probe"], inp["via"], inp["repeat"], inp["pos"]
+    for old in _LIVE_STATEFUL:              # also after a case that was cut short
+        old.retired = True
+    del _LIVE_STATEFUL[:]
+    probe = P["StatefulProbe"](pd)
+    _LIVE_STATEFUL.append(probe)
+    problems = []
+    summary = ""
+    for call in range(inp["calls"]):
+        probe.mark()
+        p0 = len(probe.passes)
+        stack = [build_mw(d) for d in inp["prefix"]] + [probe] * repeat
+        if via == "transform":
+            objs = [c06.build_block(d) for d in inp["blocks"]]
+            if inp.get("alias") and objs:
+                objs.append(objs[0])            # the same object held twice
+            lib = Library(objs)
+
+            def run():
+                cur = lib
+                for m in stack:
+                    cur = m.transform(cur)
+                return cur
+        elif via == "parse":
+            kw = {"parse_stack": stack} if pos == "ps" else {"append_middleware": stack}
+
+            def run():
+                return bibtexparser.parse_string(inp["text"], **kw)
+        else:
+            lib0 = bibtexparser.parse_string(inp["text"])
+            kw = {"unparse_stack": stack} if pos == "ps" else {"prepend_middleware": stack}
+
+            def run():
+                return bibtexparser.write_string(lib0, **kw)
+        got = implutil.guarded(run)
+        kind, val = expect_stateful(probe, p0, repeat)
+        summary = ("raised %s" % got[2]) if got[0] == "exc" else (repr(got[1])[:200] if via == "write" else names(got[1].blocks))
+        here = "call %d: " % (call + 1)
+        if kind == "typeerror":
+            if not (got[0] == "exc" and got[2] == "TypeError"):
+                problems.append(here + "a collection holding a non-block was returned, TypeError expected; got " + summary)
+        elif kind == "fail":
+            problems.append(here + val + " (outcome: %s)" % summary)
+        elif via == "write":
+            final = val
+
+            def reference():
+                cur = Library(final)
+                if pos == "am":
+                    for _, name, mkw in DEFAULT_UNPARSE:
+                        cur = getattr(MW, name)(**mkw).transform(cur)
+                return W.write(cur)
+            exp = implutil.guarded(reference)       # the stages after the probe may refuse its blocks: then both must
+            if exp[0] != got[0] or exp[1] != got[1]:
+                problems.append(here + "the outcome is not that of writing the blocks the probe returned, each at the position of its "
+                                       "block: got %s, expected %s" % (summary, repr(exp[1])[:300] if exp[0] == "ok" else "raised " + exp[2]))
+        elif got[0] == "exc":
+            problems.append(here + "raised %s although every per-block result was None, a block or a collection of blocks when it was "
+                                   "returned" % got[2])
+        else:
+            final = val
+            if not same_blocks(got[1].blocks, final):
+                problems.append(here + "the library does not hold, at the position of each block, what the probe returned for it "
+                                       "(as it was when returned): got %s, expected %s" % (names(got[1].blocks), names(final)))
+            else:
+                probe.scribble()            # the returned collections are the probe's: changing them now must not reach the library
+                if not same_blocks(got[1].blocks, final):
+                    problems.append(here + "changing a returned collection after the call changed the resulting library")
+    probe.retired = True
+    rec.update(sx_in=None, sx_out=None, summary=summary, nontrivial=True,
+               oracle={"ok": not problems, "detail": "; ".join(problems)[:1500]})
+    rec["tags"] += ["stateful_" + pd["mode"], "late_%s" % pd["late"], "via_" + via, "cont_" + pd["cont"], "repeat_%d" % repeat,
+                    "calls_%d" % inp["calls"]]
     if got[0] == "exc":
         rec["tags"].append("raises_" + got[2])
     return rec
